@@ -6,6 +6,7 @@
 #include <array>
 #include <chrono>
 #include <cstdint>
+#include <mutex>
 #include <optional>
 #include <span>
 #include <string>
@@ -37,6 +38,9 @@ public:
 
 private:
     std::chrono::seconds rotation_interval_;
+    // Session threads, the transport accept thread and the tick loop all reach the key table
+    // without a common lock of their own; mutex_ is a leaf lock (nothing is called while it is held).
+    mutable std::mutex mutex_;
     std::unordered_map<std::string, SessionKeyContext> contexts_;
 
     static std::array<std::uint8_t, 32> derive_key(const crypto::Key& shared_secret,
